@@ -36,7 +36,8 @@ Inductive op :=
 | OInc (len : Z) | OCat (label : string)
 | OSplitN (n : nat) | OSplit (n : nat)
 | OElemInc (k : nat) (len : Z) | OElemCat (k : nat) (label : string)
-| OJoin (label : string) | OSum (len : Z).
+| OJoin (label : string) | OSum (len : Z)
+| OSucc.
 
 Definition apply_op (o : op) (vals : list cval) : cval :=
   match o with
@@ -50,6 +51,7 @@ Definition apply_op (o : op) (vals : list cval) : cval :=
   | OElemCat k label => match vals with [VL l] => match nth k l bad with VS s => VS (s ++ "|" ++ label) | _ => bad end | _ => bad end
   | OJoin label => match strs vals with Some l => VS (join "," l ++ "|" ++ label) | None => bad end
   | OSum len => match ints vals with Some l => VN (zsum l + len) | None => bad end
+  | OSucc => match vals with [VN v] => VN (v + 1) | _ => bad end
   end.
 
 Definition jb (ins : list nat) (o : op) : job cval := mkjob ins (apply_op o).
